@@ -16,6 +16,7 @@ BaseException.
 """
 import math
 import time
+_now = time.perf_counter       # captured at import: code under analysis may have time.time replaced by a symbolic clock
 from fractions import Fraction as Fr
 
 import numpy as _np
@@ -101,9 +102,9 @@ class Ctx:
 
     # -- solver access
     def check(self, *extra):
-        t = time.time()
+        t = _now()
         r = str(self.solver.check(*extra))
-        dt = time.time() - t
+        dt = _now() - t
         for s in (self.stats, GLOBAL):
             s.solver_s += dt
             s.queries += 1
